@@ -95,16 +95,16 @@ type Check struct {
 	// AgedWorker: the last worker never applies the per-run reset of the known
 	// process-wide tables and probes its history often: the process ages like a
 	// long-lived server (thousands of configurations loaded and dropped)
-	AgedWorker bool
-	Age        func() int // optional: what the aged worker does once before its first run; returns how many ageing steps succeeded
-	Run          func(w *verifrt.World, tier Tier) *RunResult
-	Prepare      func(scratch string) error // parent-side set-up before workers start
-	Runs         [2]int                     // run budget per tier (total over all workers)
-	MaxSeconds   [2]int
-	Rule         string
-	Assumptions  []string
-	Real, Stub   []string
-	Unchecked    []string
+	AgedWorker  bool
+	Age         func() int // optional: what the aged worker does once before its first run; returns how many ageing steps succeeded
+	Run         func(w *verifrt.World, tier Tier) *RunResult
+	Prepare     func(scratch string) error // parent-side set-up before workers start
+	Runs        [2]int                     // run budget per tier (total over all workers)
+	MaxSeconds  [2]int
+	Rule        string
+	Assumptions []string
+	Real, Stub  []string
+	Unchecked   []string
 	// Probes that must be non-zero in the thorough tier
 	MustHit []string
 }
